@@ -341,7 +341,7 @@ pub fn run(rep: &mut Rep) {
         }
     }
     // (d) constructible serialisable types on their own, values across head thresholds
-    let n = rep.n(1500, 150_000);
+    let n = rep.n(1500, 1_500_000);
     for _ in 0..n * rep.nshards {
         case += 1;
         if !rep.mine(case) {
